@@ -473,9 +473,11 @@ def model_oracles(cls, cfg, inst, obs, fresh, viol, classes, hist):
     for grp in ("pipeline_kwargs", "pipeline_classes", "pipelines"):
         got = obs[grp]
         if _is_exc(got):
-            if fresh[grp] == got:
-                # fresh and live fail alike: outside the letter of C16 (settings equal those of a fresh instrument);
-                # counted as an observation, see the report
+            if spectral_ok and edges:
+                # a validly configured instrument (its spectral settings can be read) whose pipeline settings cannot: they do not
+                # "equal those of an instrument constructed directly", they do not exist (the class docstring itself calls create_pipelines())
+                bad(grp + ":raises:" + got[4:], "%s cannot be read on a validly configured instrument" % grp, "one spectral pipeline named %r" % nm, got)
+            elif fresh[grp] == got:
                 classes.append("obs:%s:%s-raises-%s-on-fresh-and-live" % (cls, grp, got[4:]))
             continue
         classes.append("model:pipelines")
